@@ -176,6 +176,14 @@ theorem hop_origin {cfg : Cfg} {st0 : St} {ck : Cookie} (st : St) (s : Sess) (h 
       · exact Or.inl h
       · exact Or.inr ⟨n, a, b, c⟩
   | expire => exact keep _ rfl
+  | acc a =>
+    simp only [hop]
+    split
+    · exact keep s rfl
+    · rename_i s' hs'
+      exact keep _ (ensureLoaded_spec hs').1
+  | len => exact keep _ rfl
+  | raise => exact keep s rfl
 
 /-- **No fixation.**  Whatever the store, the cookie and the handler: the id in the response cookie is
     the presented one only if the store held it before the request; otherwise it was drawn from the id
@@ -278,6 +286,10 @@ theorem hop_id (cfg : Cfg) (st : St) (s : Sess) (h : HOp) (hr : h ≠ .regenerat
              · rename_i s' hs'; exact (ensureLoaded_spec hs').1
   | delete => simp only [hop]; split <;> rfl
   | expire => rfl
+  | acc a => simp only [hop]; split; · rfl
+             · rename_i s' hs'; exact (ensureLoaded_spec hs').1
+  | len => rfl
+  | raise => rfl
 
 theorem hop_now (cfg : Cfg) (st : St) (s : Sess) (h : HOp) : (hop cfg st s h).st.now = st.now := by
   cases h with
@@ -291,6 +303,9 @@ theorem hop_now (cfg : Cfg) (st : St) (s : Sess) (h : HOp) : (hop cfg st s h).st
   | clear => simp only [hop]; split <;> rfl
   | delete => simp only [hop]; split <;> rfl
   | expire => rfl
+  | acc a => simp only [hop]; split <;> rfl
+  | len => rfl
+  | raise => rfl
 
 theorem hop_ctr (cfg : Cfg) (st : St) (s : Sess) (h : HOp) : st.ctr ≤ (hop cfg st s h).st.ctr := by
   cases h with
@@ -306,6 +321,9 @@ theorem hop_ctr (cfg : Cfg) (st : St) (s : Sess) (h : HOp) : st.ctr ≤ (hop cfg
   | clear => simp only [hop]; split <;> exact Nat.le_refl _
   | delete => simp only [hop]; split <;> exact Nat.le_refl _
   | expire => exact Nat.le_refl _
+  | acc a => simp only [hop]; split <;> exact Nat.le_refl _
+  | len => exact Nat.le_refl _
+  | raise => exact Nat.le_refl _
 
 /-- inside a request the store only shrinks (nothing is written before the `save` hook) -/
 theorem hop_store_sub (cfg : Cfg) (st : St) (s : Sess) (h : HOp) (p : Id × Rec)
@@ -327,6 +345,9 @@ theorem hop_store_sub (cfg : Cfg) (st : St) (s : Sess) (h : HOp) (p : Id × Rec)
     simp only [hop] at hm; split at hm <;>
       exact (mem_erase (s := st.store) (i := s.id) (j := p.1) (r := p.2) hm).1
   | expire => exact hm
+  | acc a => simp only [hop] at hm; split at hm <;> exact hm
+  | len => exact hm
+  | raise => exact hm
 
 /-- a statement touches no stored record other than the session's own -/
 theorem hop_lookup_other (cfg : Cfg) (st : St) (s : Sess) (h : HOp) (i : Id) (hne : s.id ≠ i) :
@@ -346,6 +367,9 @@ theorem hop_lookup_other (cfg : Cfg) (st : St) (s : Sess) (h : HOp) (i : Id) (hn
   | clear => simp only [hop]; split <;> rfl
   | delete => simp only [hop]; split <;> exact lookup_erase_ne _ (Ne.symm hne)
   | expire => rfl
+  | acc a => simp only [hop]; split <;> rfl
+  | len => rfl
+  | raise => rfl
 
 /-! ### C14_persist -/
 
@@ -625,7 +649,10 @@ def DeadRec (now : Nat) : Rec → Prop
 /-- every record the store holds under `i` is dead (the store holds nothing returnable for `i`) -/
 def DeadAll (st : St) (i : Id) : Prop := ∀ r, (i, r) ∈ st.store → DeadRec st.now r
 
-def NoWrite (hs : List HOp) : Prop := ∀ k v, HOp.write k v ∉ hs
+def NoWrite (hs : List HOp) : Prop := ∀ h ∈ hs, HOp.writes h = false
+
+theorem Acc.apply_nil {a : Acc} (h : a.writes = false) : a.apply [] = ([], []) := by
+  cases a <;> first | rfl | cases h
 
 /-- the only way new data may appear under `i`: a request presenting `i` whose handler writes it -/
 def WritesNot (i : Id) : Op → Prop
@@ -681,7 +708,7 @@ theorem DeadAll_sub {st st' : St} {i : Id} (hd : DeadAll st i) (hn : st'.now = s
 
 theorem hop_dead {cfg : Cfg} {st0 : St} {ck : Cookie} {i : Id} (hf : FutureNot cfg st0 i)
     (st : St) (s : Sess) (h : HOp)
-    (hw : Cookie.presented ck = some i → ∀ k v, h ≠ .write k v)
+    (hw : Cookie.presented ck = some i → h.writes = false)
     (hp : DeadInv cfg st0 ck i st s) :
     DeadInv cfg st0 ck i (hop cfg st s h).st (hop cfg st s h).sess := by
   obtain ⟨hnow, hctr, hdead, hid, hpres⟩ := hp
@@ -720,7 +747,7 @@ theorem hop_dead {cfg : Cfg} {st0 : St} {ck : Cookie} {i : Id} (hf : FutureNot c
     · exact ⟨hnow, hctr, hdead, hid, hpres⟩
     · rename_i s' hs'
       obtain ⟨l1, _⟩ := loaded s' hs'
-      exact ⟨hnow, hctr, hdead, l1, fun hc => absurd rfl (hw hc k v)⟩
+      exact ⟨hnow, hctr, hdead, l1, fun hc => by have := hw hc; cases this⟩
   | delKey k =>
     simp only [hop]
     split
@@ -777,6 +804,27 @@ theorem hop_dead {cfg : Cfg} {st0 : St} {ck : Cookie} {i : Id} (hf : FutureNot c
       obtain ⟨a, b, c⟩ := hpres hc
       exact ⟨a, b, fun hl => DeadAll_sub (c hl) rfl hsub⟩
   | expire => exact ⟨hnow, hctr, hdead, hid, hpres⟩
+  | acc a =>
+    simp only [hop]
+    split
+    · exact ⟨hnow, hctr, hdead, hid, hpres⟩
+    · rename_i s' hs'
+      obtain ⟨l1, l2⟩ := loaded s' hs'
+      have e2 := (ensureLoaded_spec hs').2.1
+      refine ⟨hnow, hctr, hdead, l1, fun hc => ?_⟩
+      have hnil : a.apply s'.data = ([], []) := by
+        rw [(l2 hc).1]; exact Acc.apply_nil (hw hc)
+      refine ⟨by show (a.apply s'.data).1 = []; rw [hnil], ?_, fun h => ?_⟩
+      · intro d hd
+        have hd' : d ∈ s'.reads ++ [(a.apply s'.data).2] := hd
+        simp only [List.mem_append, List.mem_singleton] at hd'
+        rcases hd' with hd | hd
+        · exact (l2 hc).2 d hd
+        · rw [hd, hnil]
+      · have h' : s'.loaded = false := h
+        rw [e2] at h'; cases h'
+  | len => exact ⟨hnow, hctr, hdead, hid, hpres⟩
+  | raise => exact ⟨hnow, hctr, hdead, hid, hpres⟩
 
 /-- One request on a store in which `i` is dead: `i` stays dead, and if the request presents `i`
     (without writing) every read of its handler is empty. -/
@@ -803,7 +851,7 @@ theorem request_dead (cfg : Cfg) (st : St) (ck : Cookie) (hops : List HOp) (i : 
           exact absurd hm (not_mem_of_lookup_none (has_false_iff.mp a) r)
     have hfin := runHops_induct (cfg := cfg) (DeadInv cfg st ck i) hops
       (fun st1 s h hm hp => hop_dead hf st1 s h
-        (fun hc k v e => hw hc k v (e ▸ hm)) hp) st0 s0 h0
+        (fun hc => hw hc h hm) hp) st0 s0 h0
     split
     · rename_i st1 s1 hr
       rw [hr] at hfin
@@ -898,6 +946,9 @@ theorem hop_fail_status {cfg : Cfg} {st st' : St} {s s' : Sess} {h : HOp} {e : S
   | regenerate => simp only [hop] at hf; split at hf <;> cases hf; intro hc; cases hc
   | delete => simp only [hop] at hf; split at hf <;> cases hf
   | expire => simp only [hop] at hf; cases hf
+  | acc a => simp only [hop] at hf; split at hf <;> cases hf; intro hc; cases hc
+  | len => simp only [hop] at hf; cases hf
+  | raise => simp only [hop] at hf; cases hf; intro hc; cases hc
 
 theorem runHops_fail_status {cfg : Cfg} (hs : List HOp) {st st' : St} {s s' : Sess} {e : Status}
     (hf : runHops cfg st s hs = .fail e st' s') : e ≠ .ok := by
@@ -1042,12 +1093,12 @@ example : (request exCfg exDeadSt (.id 1) [.read, .delKey 1, .read]).2 = ⟨.ok,
 /-- "a damaged session file is never an error": the reading of the statement that covers *every*
     file content.  False on the unchanged tree; the part that holds is `C14_damaged_partial`. -/
 def C14_damaged_full : Prop :=
-  ∀ (cfg : Cfg) (st : St) (ck : Cookie) (hops : List HOp),
+  ∀ (cfg : Cfg) (st : St) (ck : Cookie) (hops : List HOp), HOp.raise ∉ hops →
     (request cfg st ck hops).2.status ≠ .err500 ∧ (sweepFile st.now st.store).2 = false
 
 theorem C14_damaged_full_false : ¬ C14_damaged_full := by
   intro h
-  have := (h exCfg { store := [(1, .bad .other)] } (.id 1) [.read]).1
+  have := (h exCfg { store := [(1, .bad .other)] } (.id 1) [.read] (by decide)).1
   revert this
   decide
 
@@ -1056,12 +1107,15 @@ theorem C14_sweep_abort_witness :
     sweepFile 5 [(1, .good [] 1), (2, .bad .other), (3, .good [] 1)] =
       ([(2, .bad .other), (3, .good [] 1)], true) := by decide
 
-theorem runHops_no500 (cfg : Cfg) (hs : List HOp) (st : St) (s : Sess) (hb : NoOther st.store) :
+theorem runHops_no500 (cfg : Cfg) (hs : List HOp) (st : St) (s : Sess) (hb : NoOther st.store)
+    (hnr : HOp.raise ∉ hs) :
     ∀ e st' s', runHops cfg st s hs = .fail e st' s' → e ≠ .err500 := by
   induction hs generalizing st s with
   | nil => intro e st' s' h; simp [runHops] at h
   | cons h hs ih =>
     intro e st' s' hr
+    have hnr' : HOp.raise ∉ hs := fun hm => hnr (List.mem_cons_of_mem _ hm)
+    have hne : h ≠ .raise := fun e => hnr (e ▸ List.mem_cons_self)
     simp only [runHops] at hr
     have hload : ∀ s : Sess, ensureLoaded st s ≠ none := by
       intro s hn
@@ -1077,7 +1131,7 @@ theorem runHops_no500 (cfg : Cfg) (hs : List HOp) (st : St) (s : Sess) (hb : NoO
         intro j hm
         have := hop_store_sub cfg st s h (j, .bad .other) (by rw [h1]; exact hm)
         exact hb j this
-      exact ih st1 s1 hsub e st' s' hr
+      exact ih st1 s1 hsub hnr' e st' s' hr
     · rename_i e1 st1 s1 h1
       cases hr
       cases h with
@@ -1098,12 +1152,17 @@ theorem runHops_no500 (cfg : Cfg) (hs : List HOp) (st : St) (s : Sess) (hb : NoO
                       · cases h1
       | delete => simp only [hop] at h1; split at h1 <;> cases h1
       | expire => simp only [hop] at h1; cases h1
+      | acc a => simp only [hop] at h1; split at h1
+                 · rename_i hn; exact absurd hn (hload s)
+                 · cases h1
+      | len => simp only [hop] at h1; cases h1
+      | raise => exact absurd rfl hne
 
 /-- **Partial statement that holds**: while every damaged file is of a class `_load` maps to "no
     session" (in particular every truncation of a saved file, `torn_prefix_benign`), no request is
     answered 500, whatever the cookie and the handler, and the sweep runs to the end. -/
 theorem C14_damaged_partial (cfg : Cfg) (st : St) (ck : Cookie) (hops : List HOp)
-    (hb : NoOther st.store) :
+    (hb : NoOther st.store) (hnr : HOp.raise ∉ hops) :
     (request cfg st ck hops).2.status ≠ .err500 ∧ (sweepFile st.now st.store).2 = false := by
   refine ⟨?_, sweepFile_not_aborted hb⟩
   unfold request
@@ -1128,7 +1187,7 @@ theorem C14_damaged_partial (cfg : Cfg) (st : St) (ck : Cookie) (hops : List HOp
     split
     · intro hc; cases hc
     · rename_i e st1 s1 hr
-      exact runHops_no500 cfg hops st0 s0 (by rw [e1]; exact hb) e st1 s1 hr
+      exact runHops_no500 cfg hops st0 s0 (by rw [e1]; exact hb) hnr e st1 s1 hr
 
 example : NoOther [(1, Rec.bad .eof), (2, .good [] 3)] := by
   intro i hm
